@@ -18,11 +18,13 @@ from vf.pyvc import extract
 
 MOD = "debian.copyright"
 LINES = ["", "a", " b", "x y", "..", " .", ". ", "  .", "é ü", "\ttab", "a ", ".", "  ", " "]
-PATTERNS = ["*", "src/*", "debian/rules", "a?.c", "doc/日本語.txt", "doc/日本語　ガイド.txt", "x\\*y", "é"]
+PATTERNS = ["*", "src/*", "debian/rules", "a?.c", "doc/日本語.txt", "doc/日本語　ガイド.txt", "x\\*y", "é", "data/a,b.txt", "x,", ","]
 TEXTS = ["line1", "line1\n\n  indented\nlast", "é ü\n\n\nx", "a\n .\nb", "  lead", "t\n. \n  .\nend", "", "ends with blanks  ",
-         "l1\nlast line\t ", "a\nb\u3000"]
+         "l1\nlast line\t ", "a\nb\u3000",
+         "quoted statement:\n-----BEGIN PGP SIGNED MESSAGE-----\nHash: SHA256\n\nbody\n-----BEGIN PGP SIGNATURE-----\nabc=\n-----END PGP SIGNATURE-----\nafter",
+         "-----END PGP PUBLIC KEY BLOCK-----"]
 SYNOPSES = ["GPL-2+", "MIT or Expat", "X", "GPL-2+ with exception"]
-COPYRIGHTS = ["2020 A", "2020 A\n 2021 B <b@c>", "© é", "", "2020 A\n 2021 B  "]
+COPYRIGHTS = ["2020 A", "2020 A\n 2021 B <b@c>", "© é", "", "2020 A\n 2021 B  ", "2020 A\n -----BEGIN PGP SIGNATURE-----\n 2021 B"]
 
 
 def in_domain(ls):
